@@ -22,7 +22,7 @@ func init() {
 }
 
 func runC09(p *Program, r *Report) {
-	r.Explanation = "Structural necessary conditions decided for every input: (P1) from each public entry that parses untrusted bytes, every prism function reached WITHOUT passing a frame whose deferred recover() is armed before anything can panic contains only operations that cannot panic or that match a recognised sound guard idiom — constant index into an array, index by a counter bounded by len of the same slice, the s[2j], s[2j+1] pair with j < len(s)/2, and a slice expression data[a:a+c] dominated by `uint64(a)+uint64(c) > uint64(len(data)) → return` with the widening BEFORE the addition (a 32-bit sum that wraps defeats the check); (A1) on every explored path of the parsers the length of every make() is a constant, or is built from at most 16 input bits, or is bounded by a preceding path condition against the length of data actually held, and any subtraction in it is preceded by a condition that excludes wrap-around; every make site of meta/... is reached by the exploration; no Grow/ReadAll with an input-declared size; (A2) no allocation sized by input-declared numbers sits inside a loop whose trip count is input-declared unless its size is bounded by the bytes that iteration consumes (total memory linear in the input); (L1) every loop either has a constant or len()-bounded trip count or performs, on every cycle, a stream read whose failure leaves the loop (time linear in the input); (L2) no reader is ever repositioned (Seek/Unread/Reset/Discard). NOT decided: actual allocation totals and wall time, zlib's expansion ratio (≤ 1032:1 by format), stack depth."
+	r.Explanation = "Structural necessary conditions decided for every input: (P1) from each public entry that parses untrusted bytes, every prism function reached WITHOUT passing a frame whose deferred recover() is armed before anything can panic contains only operations that cannot panic, whose bounds are implied on every path by the path conditions (rule B: the function is abstractly interpreted with bounds tracking and 0 <= lo <= hi <= len / 0 <= i < len is proved in integer linear arithmetic from at most two conditions, admitting only conditions whose own SSA arithmetic cannot wrap), or that match a recognised sound guard idiom — constant index into an array, constant bounds under a dominating len(s) >= k, index by a counter bounded by len of the same slice, the s[2j], s[2j+1] pair with j < len(s)/2, and a slice expression data[a:a+c] dominated by `uint64(a)+uint64(c) > uint64(len(data)) → return` with the widening BEFORE the addition (a 32-bit sum that wraps defeats the check); (A1) on every explored path of the parsers the length of every make() is a constant, or is built from at most 16 input bits, or is bounded by a preceding path condition against the length of data actually held, and any subtraction in it is preceded by a condition that excludes wrap-around; every make site of meta/... is reached by the exploration; no Grow/ReadAll with an input-declared size; (A2) no allocation sized by input-declared numbers sits inside a loop whose trip count is input-declared unless its size is bounded by the bytes that iteration consumes (total memory linear in the input); (L1) every loop either has a constant or len()-bounded trip count, consumes a slice of held data from the front, or performs, on every cycle, a stream read whose failure leaves the loop (time linear in the input); (L2) no reader is ever repositioned (Unread/Reset/Discard; Seek only forward: io.SeekCurrent with an offset converted from an unsigned value). NOT decided: actual allocation totals and wall time, zlib's expansion ratio (≤ 1032:1 by format), stack depth."
 	r.RuleText = "one instance per entry point (P1), per risky instruction (P1), per make site and path (A1), per loop (L1/A2), plus scans with expected count zero"
 	r.Trusted = []string{"go/packages+go/types+go/ssa (x/tools v0.29.0)", "the abstract interpreter (bounded exploration) for A1", "recover() in a deferred closure stops a panic raised in the same goroutine below that frame", "bytes.Buffer grows with the bytes written; io.CopyN copies at most n bytes actually present"}
 	checkPanicContainment(p, r)
@@ -853,6 +853,9 @@ func checkAllocBounds(p *Program, r *Report) {
 			default:
 				good = false
 				why = fmt.Sprintf("the size %s comes from %d input-declared bits and no earlier condition on the path bounds it by the data actually held: a few bytes of input can demand gigabytes", trunc(f.Len.String(), 120), bits)
+				if strings.Contains(f.Len.String(), "undef:") {
+					why = "the size is a running total accumulated across loop iterations; the checker cannot bound such a sum by the data actually held (the summands may alias the same bytes, as in defect D9), so the allocation is not shown to be proportional to the input"
+				}
 			}
 			if good && !noWrap(e, f.Len, f.Conds) {
 				good = false
